@@ -28,7 +28,7 @@ func honestLogLines(format string) []string {
 		return l
 	}
 	var buf bytes.Buffer
-	hooks, err := logging.NewHooks(append([]byte{}, auditKey...), format)
+	hooks, err := logging.NewHooks(dup(auditKey), format)
 	if err != nil {
 		panic(err)
 	}
@@ -49,7 +49,7 @@ func honestLogLines(format string) []string {
 		logrus.WithField("client_id", "client one").WithField("code", 508).Warningln("message with = sign and \"quotes\" | pipe \\ backslash")
 		logrus.WithError(errors.New("some error: with colon")).Errorln("failure")
 		logrus.Infof("multi word message %d", chain)
-		h.ResetChain(append([]byte{}, auditKey...))
+		h.ResetChain(dup(auditKey))
 	}
 	h.FinalizeChain()
 	logrus.SetOutput(oldOut)
@@ -132,7 +132,7 @@ func init() {
 		reg(&target{name: "log.verify." + format, group: "auditlog", prepare: prep, gen: lineGen(true),
 			setup: func() error { var err error; vparser, err = logging.NewLogParser(format); return err },
 			run: func(in []byte) error {
-				v, err := logging.NewIntegrityCheckVerifier(append([]byte{}, auditKey...), vparser)
+				v, err := logging.NewIntegrityCheckVerifier(dup(auditKey), vparser)
 				if err != nil {
 					return err
 				}
